@@ -1,0 +1,41 @@
+//go:build verif
+
+package imagehash
+
+import "sync"
+
+// Hooks for the runtime-monitoring harness in /verif (quiescent points only).
+
+// VerifResetPools replaces the four pixel pools by fresh ones (zero-filled buffers).
+func VerifResetPools() { VerifPoisonPools(nil, nil) }
+
+// VerifPoisonPools replaces the four pixel pools by pools whose buffers are pre-filled by
+// fill64/fill32 (index -> value), as an earlier image could have left them. nil = zeros.
+func VerifPoisonPools(fill64 func(i int) float64, fill32 func(i int) float32) {
+	mk64 := func(n int) func() interface{} {
+		return func() interface{} {
+			p := make([]float64, n)
+			if fill64 != nil {
+				for i := range p {
+					p[i] = fill64(i)
+				}
+			}
+			return &p
+		}
+	}
+	mk32 := func(n int) func() interface{} {
+		return func() interface{} {
+			p := make([]float32, n)
+			if fill32 != nil {
+				for i := range p {
+					p[i] = fill32(i)
+				}
+			}
+			return &p
+		}
+	}
+	pixelsPool64 = sync.Pool{New: mk64(4096)}
+	pixelsPool256 = sync.Pool{New: mk64(65536)}
+	pixelsPool32 = sync.Pool{New: mk32(4096)}
+	pixelsPool256Alt = sync.Pool{New: mk32(65536)}
+}
